@@ -364,6 +364,13 @@ func hazards() []hazard {
 		"import (\n\t\"context\"\n\n\t\"go.uber.org/cff\"\n)\n\nfunc Run(ctx context.Context, n int) error {\n\treturn cff.Parallel(ctx,\n\t\tcff.Task(func(i int) error { _ = n; return nil }),\n\t)\n}\n")
 	untagged("untagged-file:ill-formed-then-well-formed",
 		"import (\n\t\"context\"\n\n\t\"go.uber.org/cff\"\n)\n\nfunc Run0(ctx context.Context, n int) (string, error) {\n\tvar out string\n\terr := cff.Flow(ctx,\n\t\tcff.Results(&out),\n\t\tcff.Task(func(i int) (string, error) { return string(rune('a' + i%26)), nil }),\n\t)\n\t_ = n\n\treturn out, err\n}\n\nfunc Run(ctx context.Context, n int) (string, error) {\n"+flow("cff")+"}\n")
+	// a package-level name declared only in an in-package test file: the import
+	// the generated code adds for runtime/debug or time must not take that name
+	for _, id := range []string{"debug", "time"} {
+		add("in-package-test-file-declares:"+id, "accept",
+			"import (\n\t\"context\"\n\n\t\"go.uber.org/cff\"\n)\n\nfunc Run(ctx context.Context, n int) (string, error) {\n"+flow("cff")+"}\n",
+			map[string]string{"zz_test.go": "package PKGNAME\n\nvar " + id + " = 1\n\nvar _ = " + id + "\n"})
+	}
 	add("generic-method-receiver", "accept",
 		"import (\n\t\"context\"\n\n\t\"go.uber.org/cff\"\n)\n\ntype Box[T any] struct{ v T }\n\nfunc (b *Box[T]) Run(ctx context.Context, n int) (T, error) {\n\tvar out T\n\terr := cff.Flow(ctx,\n\t\tcff.Params(n),\n\t\tcff.Results(&out),\n\t\tcff.Task(func(i int) (T, error) { return b.v, nil }),\n\t)\n\treturn out, err\n}\n\nfunc Run(ctx context.Context, n int) (string, error) { return (&Box[string]{\"s\"}).Run(ctx, n) }\n", nil)
 	add("slice-noindex-with-end", "accept",
